@@ -2,7 +2,7 @@ use std::collections::HashMap;
 
 use darling::FromAttributes;
 use proc_macro::TokenStream;
-use syn::parse_quote;
+use syn::{ext::IdentExt, parse_quote};
 
 use crate::Flavor;
 
@@ -51,7 +51,7 @@ impl Field {
     fn field_name(&self) -> String {
         match &self.attrs.rename {
             Some(name) => name.clone(),
-            None => self.ident.to_string(),
+            None => self.ident.unraw().to_string(),
         }
     }
 
@@ -330,7 +330,10 @@ impl Generator for FieldSortingGenerator<'_> {
         );
 
         fn make_visited_flag_ident(field_name: &syn::Ident) -> syn::Ident {
-            syn::Ident::new(&format!("visited_flag_{field_name}"), field_name.span())
+            syn::Ident::new(
+                &format!("visited_flag_{}", field_name.unraw()),
+                field_name.span(),
+            )
         }
 
         // Generate a "visited" flag for each field
